@@ -26,13 +26,13 @@ impl Monitor for C10 {
 		"C10"
 	}
 	fn rule(&self) -> String {
-		"C01's replay space restricted to finished files (Game End present: single or doubled), all versions/layouts, gecko 0/1/3+ blocks, metadata/none, frame counts 0/1/many, x hash {off,on}; plus size-targeted replays (up to tens of thousands of frames) whose skipped region is an exact multiple of 4 KiB / 8 KiB / 64 KiB, or one frame off. Oracle: slippi::read with skip_frames returns start, end, metadata equal to the full read and zero frame rows; the skip result can be written as .slp and re-read to the same start/end/metadata, and written as .slpp and re-read; peppi::read with skip_frames on the .slpp of the full game returns the same start/end/metadata/gecko/hash and zero rows. One evaluation = one (file, hash) pair. distinct = workload classes x hash.".into()
+		"C01's replay space restricted to finished files (Game End present: single or doubled), all versions/layouts, gecko 0/1/3+ blocks, metadata/none, frame counts 0/1/many, x hash {off,on}; plus size-targeted replays (up to tens of thousands of frames) whose skipped region is an exact multiple of 4 KiB / 8 KiB / 64 KiB, or one frame off; plus finished replays of versions above 3.16 whose events (Game End included) carry extra trailing bytes. For every third file the stream handed to the reader is positioned behind a junk prefix (not at offset 0). Oracle: slippi::read with skip_frames returns start, end, metadata equal to the full read and zero frame rows; the skip result can be written as .slp and re-read to the same start/end/metadata, and written as .slpp and re-read; peppi::read with skip_frames on the .slpp of the full game returns the same start/end/metadata/gecko/hash and zero rows. One evaluation = one (file, hash) pair. distinct = workload classes x hash.".into()
 	}
 	fn assumptions(&self) -> Vec<String> {
 		vec![".slpp legs are skipped (counted) for versions 3.0-3.6 / empty port sets, where peppi::write panics (known finding under C02/C14)".into()]
 	}
 	fn n_cases(&self, ctx: &Ctx) -> usize {
-		self.fixtures.len() + ctx.tier.pick(&self.quick, &self.thorough).len() + ctx.tier.pick(8, 48)
+		self.fixtures.len() + ctx.tier.pick(&self.quick, &self.thorough).len() + ctx.tier.pick(8, 48) + ctx.tier.pick(60, 2000)
 	}
 	fn min_classes(&self, tier: Tier) -> usize {
 		tier.pick(80, 150)
@@ -40,7 +40,10 @@ impl Monitor for C10 {
 	fn run(&self, ctx: &Ctx, idx: usize) -> CaseOut {
 		let mut out = CaseOut::default();
 		let n_main = self.fixtures.len() + ctx.tier.pick(&self.quick, &self.thorough).len();
-		let input = if idx >= n_main {
+		let n_aligned = ctx.tier.pick(8, 48);
+		let input = if idx >= n_main + n_aligned {
+			newer_version_case(idx - n_main - n_aligned, ctx.seed, &mut out)
+		} else if idx >= n_main {
 			aligned_case(idx - n_main, ctx.seed, &mut out)
 		} else {
 			case_input(ctx.tier.pick(&self.quick, &self.thorough), &self.fixtures, ctx.seed, idx, &mut out)
@@ -66,7 +69,15 @@ impl Monitor for C10 {
 					return out;
 				}
 			};
-			let skip = match common::slp_read(&bytes, true, hash) {
+			// every third case: the replay sits behind a junk prefix and the stream is positioned
+			// after it, i.e. the reader is not at offset 0 when the library gets it
+			let skip_read = if idx % 3 == 0 {
+				let n = 1 + (idx % 977);
+				common::slp_read_src(crate::iofault::Src::of(&bytes).with_prefix(n), true, hash)
+			} else {
+				common::slp_read(&bytes, true, hash)
+			};
+			let skip = match skip_read {
 				Ok(g) => g,
 				Err(f) => {
 					out.violate(format!("skip-read-failed;{}", f.sig()), format!("{}: skip-frames read of a finished replay failed: {}", desc, f.text()), Some(&bytes));
@@ -92,6 +103,11 @@ impl Monitor for C10 {
 			}
 			if !diffs.is_empty() {
 				out.violate(format!("skip-differs;{}", diffs.join("+")), format!("{} (hash={}): skip-frames result differs from full parse in: {}", desc, hash, diffs.join(", ")), Some(&bytes));
+			}
+			if (truth.version.0, truth.version.1, truth.version.2) > (3, 16, 0) {
+				// versions above the maximum are refused by both writers by design (C09)
+				out.count("write_legs_skipped_version_above_max", 1);
+				continue;
 			}
 			// the skip result can be written out and re-read (.slp)
 			match common::slp_write(&skip) {
@@ -201,4 +217,26 @@ fn aligned_case(k: usize, seed: u64, out: &mut CaseOut) -> Option<(String, Vec<u
 	let skipped = n * frame_bytes + gecko_bytes;
 	out.class(format!("aligned|block={}|{}|v{}.{}", block, if skipped % block == 0 { "exact-multiple" } else { "one-frame-off" }, v.0, v.1));
 	Some((format!("{} [skipped region {} bytes = {} x {} + {}]", s.describe(), skipped, skipped / block, block, skipped % block), b.bytes, b.truth))
+}
+
+/// Finished replays of versions above 3.16 whose known events (Game End included)
+/// carry extra trailing bytes: skip-frames must find the Game End through the
+/// payload table, not through the size the library knows for its newest version.
+fn newer_version_case(k: usize, seed: u64, out: &mut CaseOut) -> Option<(String, Vec<u8>, crate::model::Model)> {
+	let mut rng = crate::rng::Rng::derive(seed, 0x0E3 + k as u64);
+	let ver = *rng.pick(&[(3u8, 17u8, 0u8), (3, 200, 1), (4, 0, 0), (9, 1, 0), (255, 255, 255)]);
+	let ports = vec![(0, k % 3 == 0), (1, false)];
+	let nchars = 2 + (k % 3 == 0) as usize;
+	let mut s = crate::gen::base_spec(ver, ports, 0);
+	let nf = rng.range(0, 6);
+	s.frames = crate::gen::gen_frames(&mut rng, (ver.0, ver.1), nchars, nf, true, 1, 2);
+	s.ends = 1 + (k % 5 == 0) as usize;
+	s.metadata = if k % 2 == 0 { Some(crate::gen::gen_meta(&mut rng, 1, 2)) } else { None };
+	s.gecko_blocks = k % 3;
+	s.gecko_tail = if s.gecko_blocks > 0 { 5 } else { 0 };
+	let ex = |rng: &mut crate::rng::Rng| *rng.pick(&[0usize, 1, 2, 4, 9, 100]);
+	s.extra = crate::gen::Extra { start: ex(&mut rng), pre: ex(&mut rng), post: ex(&mut rng), end: 1 + ex(&mut rng), fstart: ex(&mut rng), item: ex(&mut rng), fend: ex(&mut rng) };
+	let b = crate::gen::build(&s, &mut rng);
+	out.class(format!("newer-version|v{}.{}|end+{}", ver.0, ver.1, s.extra.end.min(10)));
+	Some((format!("{} extra={:?}", s.describe(), s.extra), b.bytes, b.truth))
 }
